@@ -282,7 +282,7 @@ impl OExec {
                     return;
                 }
                 if !member {
-                    must_fail(ctx, &res, &["C17"], "execute/accepted-from-non-member", "caller is not in the operator set");
+                    must_fail(ctx, &res, &["C17", "C06"], "execute/accepted-from-non-member", "caller is not in the operator set");
                     return;
                 }
                 if !target_ok {
@@ -458,6 +458,12 @@ impl World for WorldO {
             };
             ctx.trace_str(eff.kind());
             ex.run_op(ctx, &eff);
+            if i % 3 == 1 && !ctx.stopped() {
+                let mut addrs = ex.p.clone();
+                addrs.push(ex.target.clone());
+                let oc = ex.ops_c.clone();
+                crate::surface::probe_unlisted(ctx, &mut ex.sim, &oc, "axelar-operators", &addrs, &["C17", "C07", "C06"], &["C17", "C07", "C06"]);
+            }
             if !matches!(op, OOp::Resubmit { .. } | OOp::Advance { .. }) {
                 ex.history.push(op.clone());
             }
